@@ -1186,8 +1186,13 @@ func (db *DB) acquireReadLock(ctx context.Context) error {
 		return nil
 	}
 
-	// Start long running read-transaction to prevent checkpoints.
-	tx, err := db.db.BeginTx(ctx, nil)
+	// Start long running read-transaction to prevent checkpoints. The
+	// transaction outlives the call that starts it, so it must not be tied to
+	// the caller's context: database/sql rolls a transaction back as soon as
+	// the context it was started with is canceled, which would silently drop
+	// the read lock when a request-scoped context (e.g. a "sync -wait"
+	// request) finishes.
+	tx, err := db.db.BeginTx(context.WithoutCancel(ctx), nil)
 	if err != nil {
 		return err
 	}
